@@ -569,7 +569,7 @@ CLAUSES = {
     'C04': 'C04_', 'C05': 'C05_',
     'C06': 'C06_', 'C07': ('C07_', 'C05_', 'C06_', 'C04_'), 'C08': ('C08_', 'C04_'), 'C09': 'C09_',
     'C10': ('C10_', 'C11_', 'C16_', 'C04_'),
-    'C11': 'C11_', 'C12': 'C12_', 'C14': 'C14_', 'C16': 'C16_', 'C17': 'C17_',
+    'C11': 'C11_', 'C12': 'C12_', 'C14': ('C14_', 'C01_PartsTileSource', 'C01_PartsAscending1toN', 'C01_ObjectEqualsSource'), 'C16': 'C16_', 'C17': 'C17_',
     'C18': ('C18_', 'C01_', 'C02_', 'C03_', 'C04_'),
 }
 
